@@ -100,6 +100,8 @@ pub struct Profile {
     pub long_gaps_when_replicated: bool,
     /// domain level of the servers (dynamic schema entries only take effect below level 15)
     pub level: u32,
+    /// every object has its own names: no attribute-uniqueness clashes can arise
+    pub unique_names: bool,
 }
 
 fn pick_obj(rng: &mut Rng, v: &[Obj]) -> Obj {
@@ -295,6 +297,7 @@ pub fn run_histories_ext(run: &mut Run, args: &Args, prop_salt: u64, histories: 
                     let cfg = WorldCfg {
                         replicas: nrep,
                         level: prof.level,
+                        unique_names: prof.unique_names,
                         file_backed: if prof.file_backed { Some(if rng.bool() { Some(64) } else { Some(2048) }) } else { None },
                     };
                     let mut w = World::new(&cfg, &mut rng).await;
